@@ -258,7 +258,14 @@ fn has_non_ascii_class(h: &Hir) -> bool {
     }
 }
 
-fn describe(h: &Hir, mandatory: bool, prev_lit: Option<String>, out: &mut Vec<Value>) {
+struct DCtx {
+    parent: Option<String>,
+    mandatory_in_parent: bool,
+    alt_path: Vec<(usize, usize)>,
+    next_alt: usize,
+}
+
+fn describe(h: &Hir, cx: &mut DCtx, prev_lit: Option<String>, out: &mut Vec<Value>) {
     match h.kind() {
         HirKind::Capture(c) => {
             if let Some(n) = &c.name {
@@ -272,20 +279,35 @@ fn describe(h: &Hir, mandatory: bool, prev_lit: Option<String>, out: &mut Vec<Va
                 out.push(json!({
                     "name": &**n,
                     "index": c.index,
-                    "mandatory": mandatory,
+                    "parent": cx.parent,
+                    "mandatory": cx.mandatory_in_parent,
+                    "alt_path": cx.alt_path.iter().map(|(a, b)| json!([a, b])).collect::<Vec<_>>(),
                     "unbounded": has_unbounded(&c.sub),
                     "non_ascii_class": has_non_ascii_class(&c.sub),
                     "alternatives": alts,
                     "preceding_literal": prev_lit,
                 }));
+                let saved_parent = cx.parent.clone();
+                let saved_m = cx.mandatory_in_parent;
+                cx.parent = Some(n.to_string());
+                cx.mandatory_in_parent = true;
+                describe(&c.sub, cx, None, out);
+                cx.parent = saved_parent;
+                cx.mandatory_in_parent = saved_m;
+            } else {
+                describe(&c.sub, cx, None, out);
             }
-            describe(&c.sub, mandatory, None, out);
         }
-        HirKind::Repetition(r) => describe(&r.sub, mandatory && r.min >= 1, None, out),
+        HirKind::Repetition(r) => {
+            let saved = cx.mandatory_in_parent;
+            cx.mandatory_in_parent = saved && r.min >= 1;
+            describe(&r.sub, cx, None, out);
+            cx.mandatory_in_parent = saved;
+        }
         HirKind::Concat(v) => {
             let mut prev: Option<String> = None;
             for x in v {
-                describe(x, mandatory, prev.clone(), out);
+                describe(x, cx, prev.clone(), out);
                 prev = match x.kind() {
                     HirKind::Literal(l) => std::str::from_utf8(&l.0).ok().map(|s| s.to_string()),
                     _ => None,
@@ -293,9 +315,16 @@ fn describe(h: &Hir, mandatory: bool, prev_lit: Option<String>, out: &mut Vec<Va
             }
         }
         HirKind::Alternation(v) => {
-            for x in v {
-                describe(x, false, None, out);
+            let id = cx.next_alt;
+            cx.next_alt += 1;
+            let saved = cx.mandatory_in_parent;
+            cx.mandatory_in_parent = false;
+            for (i, x) in v.iter().enumerate() {
+                cx.alt_path.push((id, i));
+                describe(x, cx, None, out);
+                cx.alt_path.pop();
             }
+            cx.mandatory_in_parent = saved;
         }
         _ => {}
     }
@@ -330,7 +359,8 @@ fn main() {
             Ok(h) => {
                 let h2 = if groups.is_empty() { h.clone() } else { restrict(&h, &groups, false) };
                 let mut g = vec![];
-                describe(&h, true, None, &mut g);
+                let mut dcx = DCtx { parent: None, mandatory_in_parent: true, alt_path: vec![], next_alt: 0 };
+                describe(&h, &mut dcx, None, &mut g);
                 o.insert("groups".into(), Value::Array(g));
                 match build(&h2, unicode) {
                     Ok(d) => {
